@@ -374,6 +374,54 @@ pub fn stale_persist_notice_on_reelected_leader() -> Script {
     s
 }
 
+/// C13 (uncommitted-size accounting): a follower that wrote a large entry of the old leader but has not told raft
+/// yet wins the election; the entries it was elected with must never be subtracted from the budget of its own
+/// proposals when they are handed out as committed. max_uncommitted_size 1200, max_size_per_msg 1100.
+pub fn elected_before_persistence_is_reported() -> Script {
+    use raft::eraftpb::MessageType as T;
+    let mut c = cluster(vec![1, 2, 3], 3);
+    for cfg in c.nodes.values_mut() {
+        cfg.max_uncommitted_size = 1200;
+        cfg.max_size_per_msg = 1100;
+    }
+    let mut s = Script::new(c);
+    s.act(Action::Campaign { n: 1 });
+    s.settle(&[1, 2, 3]);
+    // X (1000 bytes) reaches node 2 only; node 2 writes it, the write completes, raft is not told
+    s.act(Action::Propose { n: 1, id: 1, size: 1000 });
+    s.sync_round(1);
+    s.deliver_where(|k, m| k.f == 1 && k.t == 2 && m.get_msg_type() == T::MsgAppend);
+    s.drop_where(|k, _| k.f == 1);
+    s.act(Action::AppReady { n: 2, mode: Mode::Async, skip_fsync: false, force: false });
+    s.act(Action::Fsync { n: 2, count: u32::MAX, defer: true });
+    s.drop_where(|k, _| k.t == 1);
+    // node 2 is elected for term 2 by node 3, still without having reported its write
+    s.act(Action::Campaign { n: 2 });
+    s.act(Action::AppReady { n: 2, mode: Mode::Async, skip_fsync: false, force: false });
+    s.act(Action::Fsync { n: 2, count: u32::MAX, defer: true });
+    s.drop_where(|k, _| k.t == 1);
+    s.deliver_where(|k, m| k.f == 2 && k.t == 3 && m.get_msg_type() == T::MsgRequestVote);
+    s.sync_round(3);
+    s.deliver_where(|k, m| k.f == 3 && k.t == 2 && m.get_msg_type() == T::MsgRequestVoteResponse);
+    // its own proposals A and B fill the budget exactly
+    s.act(Action::Propose { n: 2, id: 11, size: 600 });
+    s.act(Action::Propose { n: 2, id: 12, size: 600 });
+    s.act(Action::Notify { n: 2 });
+    // replication to node 3 in size-limited steps; commits advance step by step and are handed out
+    for _ in 0..12 {
+        s.drop_where(|k, _| k.t == 1 || k.f == 1);
+        s.act(Action::AppReady { n: 2, mode: Mode::Sync, skip_fsync: false, force: false });
+        s.deliver_where(|k, _| k.f == 2 && k.t == 3);
+        s.sync_round(3);
+        s.deliver_where(|k, _| k.f == 3 && k.t == 2);
+        s.act(Action::AppReady { n: 2, mode: Mode::Sync, skip_fsync: false, force: false });
+        // one more proposal (1000 bytes) is offered after every step: it fits only once A and B are handed out
+        let id = 100 + s.trace.len() as u64;
+        s.act(Action::Propose { n: 2, id, size: 1000 });
+    }
+    s
+}
+
 /// C08 open finding: a network duplicate of a forwarded MsgReadIndex is registered a second time at the
 /// (by then superseded) leader; a delayed heartbeat response that acknowledged the first registration
 /// completes the quorum of the second one and releases a later local read without any heartbeat round
@@ -436,6 +484,7 @@ pub fn for_property(id: &str) -> Vec<(&'static str, fn() -> Script)> {
             ("persist_notice_after_truncation", persist_notice_after_truncation),
             ("persist_notice_after_truncating_ready", persist_notice_after_truncating_ready),
         ],
+        "C13" => vec![("elected_before_persistence_is_reported", elected_before_persistence_is_reported)],
         "C04" => vec![
             ("persist_notice_after_truncating_ready", persist_notice_after_truncating_ready),
             ("stale_persist_notice_on_reelected_leader", stale_persist_notice_on_reelected_leader),
